@@ -59,13 +59,13 @@ def confirm(src, pid, name):
         shutil.rmtree(wt, ignore_errors=True)
 
 
-def do_import(agent_dir, pid):
+def do_import(agent_dir, pid, suffix=""):
     for name in sorted(os.listdir(agent_dir)):
         src = os.path.join(agent_dir, name)
         if not os.path.exists(os.path.join(src, "patch.diff")):
             continue
         res = confirm(src, pid, name)
-        sid = "%s-%s" % (pid, name)
+        sid = "%s-%s%s" % (pid, name, suffix)
         print(sid, "confirmed" if res["ok"] else "NOT CONFIRMED", json.dumps(res)[:400], flush=True)
         if not res["ok"]:
             continue
@@ -137,7 +137,7 @@ def do_run(ids, in_repo=False):
 
 if __name__ == "__main__":
     if sys.argv[1] == "import":
-        do_import(sys.argv[2], sys.argv[3])
+        do_import(sys.argv[2], sys.argv[3], sys.argv[4] if len(sys.argv) > 4 else "")
     elif sys.argv[1] == "run":
         args = sys.argv[2:]
         inrepo = "--in-repo" in args
